@@ -187,9 +187,19 @@ func init() {
 			return
 		}
 		root := common.NewRand(seed)
-		// the histories that re-use an id in flight come last, so that a failure in
-		// the guarded class is always met (and reported) first
-		firstOverlap := n - n/8
+		// the histories that re-use an id in flight (finding K1) are few and come last,
+		// so that a failure in the guarded class is always met (and reported) first
+		nOverlap := n / 100
+		if nOverlap < 8 {
+			nOverlap = 8
+		}
+		if nOverlap > 40 {
+			nOverlap = 40
+		}
+		if nOverlap > n {
+			nOverlap = n
+		}
+		firstOverlap := n - nOverlap
 		for i := 0; i < n; i++ {
 			c := c09Generate(root.Fork(uint64(i)), i >= firstOverlap)
 			runMerge(&c)
